@@ -343,7 +343,38 @@ func c08Menu(thorough bool) []c08Input {
 	return ins
 }
 
+func c08ConcCases(w *W) {
+	menu := []string{"list", "submit", "status U0", "release U1", "cancel U0", "list U1"}
+	bound := 2
+	for i, a := range menu {
+		for _, b := range menu[i:] {
+			if a == b && a != "list" && a != "submit" {
+				continue
+			}
+			cmds := []string{a, b}
+			bound := bound
+			if a == "submit" && b == "submit" && !w.Thorough() {
+				bound = 1 // ~70 hook points per submission: two preemptions need the thorough tier's budget
+			}
+			w.explorerCase(fmt.Sprintf("concurrent sessions %v p=%d", cmds, bound), bound, func(r *xrun) []Violation { return runC08Conc(cmds, r) })
+		}
+	}
+	triples := [][]string{{"list", "submit", "release U1"}, {"list", "submit", "status U0"}, {"list", "list", "submit"}}
+	if w.Thorough() {
+		triples = append(triples, []string{"submit", "submit", "list"}, []string{"list", "release U1", "cancel U0"}, []string{"status U0", "release U0", "list"})
+	}
+	for _, cmds := range triples {
+		cmds := cmds
+		b := 1
+		if w.Thorough() {
+			b = 2
+		}
+		w.explorerCase(fmt.Sprintf("concurrent sessions %v p=%d", cmds, b), b, func(r *xrun) []Violation { return runC08Conc(cmds, r) })
+	}
+}
+
 func runC08(w *W) {
+	c08ConcCases(w)
 	menu := c08Menu(w.Thorough())
 	for i, in := range menu {
 		in := in
